@@ -194,6 +194,7 @@ def make_store(root, cfg=None, real_primitives=False, mp_mode=False):
     sched.install_dispatch()
     if real_primitives:
         sched.set_mode("real")
+        cold_module()      # primitives the module creates when it is executed (class-level locks) must be real ones, too
         return hs().FileHashStore(cfg.props(root))
     sched.set_mode("shim")
     with sched.shimmed_primitives(mp_mode=mp_mode):
